@@ -65,6 +65,11 @@ def cases(tier, seed):
         for names in ("default", "custom", "short", "str"):
             for dims in ("default", "custom"):
                 yield dict(kind="names", nc=nc, names=names, dims=dims)
+    # CheckerBoard overrides scatter(): the same naming rules apply to it (seed C05-r2_2)
+    for names in ("default", "custom", "str"):
+        for dims in ("default", "custom"):
+            for extra in (0, 1):
+                yield dict(kind="checker_names", names=names, dims=dims, extra=extra)
     yield dict(kind="noregion")
     pts = [(0.0, 0.0), (4.0, 3.0), (4.0, 0.0), (0.0, 2.5), (-1.5, 2.0), (2.0, -8.0)]
     for p1 in pts:
@@ -354,6 +359,31 @@ def run(case, rec):
         rec.check(not raised(pr) and list(pr.columns) == ["northing", "easting", "distance"] + names + ["scalars"], "profile columns with custom extra coordinate name: %r" % (getattr(pr, "columns", pr),))
         sc_ = call(rec, g.scatter, region=REGIONS[0], size=2, random_state=0, extra_coords=vals if len(vals) > 1 else vals[0])
         rec.check(not raised(sc_) and list(sc_.columns) == ["northing", "easting"] + names + ["scalars"], "scatter columns with custom extra coordinate name")
+        return
+    if kind == "checker_names":
+        cb = vd.synthetic.CheckerBoard(region=(0.0, 4.0, 0.0, 3.0))
+        kw = {}
+        want = ["scalars"]
+        if case["names"] == "custom":
+            kw["data_names"] = ["field"]; want = ["field"]
+        elif case["names"] == "str":
+            kw["data_names"] = "single"; want = ["single"]
+        dims = ("northing", "easting")
+        if case["dims"] == "custom":
+            dims = ("latitude", "longitude"); kw["dims"] = dims
+        xk = {"extra_coords": 9.0} if case["extra"] else {}
+        xn = ["extra_coord"] if case["extra"] else []
+        sc_ = call(rec, cb.scatter, size=4, random_state=1, **kw, **xk)
+        rec.check(not raised(sc_) and list(sc_.columns) == [dims[0], dims[1]] + xn + want, "CheckerBoard.scatter columns %r, expected %r"
+                  % (list(getattr(sc_, "columns", [])), [dims[0], dims[1]] + xn + want))
+        pr = call(rec, cb.profile, (0.0, 0.0), (4.0, 3.0), 3, **kw, **xk)
+        rec.check(not raised(pr) and list(pr.columns) == [dims[0], dims[1], "distance"] + xn + want, "CheckerBoard.profile columns %r" % (list(getattr(pr, "columns", [])),))
+        ds = call(rec, cb.grid, shape=(2, 3), **kw, **xk)
+        rec.check(not raised(ds) and list(ds.data_vars) == want and set(ds.dims) == set(dims), "CheckerBoard.grid names %r dims %r" % (list(getattr(ds, "data_vars", [])), getattr(ds, "dims", None)))
+        if not raised(sc_) and list(sc_.columns) == [dims[0], dims[1]] + xn + want:
+            pts = vd.scatter_points((0.0, 4.0, 0.0, 3.0), 4, random_state=1)
+            rec.check(np.array_equal(sc_[dims[1]].values, pts[0]) and np.array_equal(sc_[dims[0]].values, pts[1]), "CheckerBoard.scatter: %s/%s columns do not hold easting/northing" % (dims[1], dims[0]))
+        rec.cls("checker_names")
         return
     if kind == "noregion":
         rec.trivial = True
